@@ -328,6 +328,11 @@ package logqlmetric
 //@   loop 0 modifies *
 //@   loop 1 modifies *
 //@   loop 2 modifies *
+//@   capture ky = call(s.Set.Key, 0)
+//@   capture la = call(s.Set.AsLokiAPI, 1)
+//@   loop 2 body_ensures[series-identified-by-the-label-set-key] ky_called && same(ky_recv, s.Set) && has(matrixSeries, ky_r0)
+//@   loop 2 body_ensures[labels-taken-at-first-sight] la_called == !head(has(matrixSeries, ky_r0)) && (la_called ==> same(la_recv, s.Set))
+//@   loop 2 body_ensures[one-point-per-sample] len(matrixSeries[ky_r0].Values) == head(len(matrixSeries[ky_r0].Values)) + 1
 //@   ensures[instant-error-surfaces] e0_called && e0_r0 != nil ==> ret1 != nil
 //@   ensures[range-error-surfaces]   e1_called && e1_r0 != nil ==> ret1 != nil
 //@   ensures[no-result-without-error-check] ret1 == nil ==> e0_called || e1_called
@@ -599,3 +604,9 @@ package logqlmetric
 //@ func (*emptyLabels).Key
 //@   modifies nothing
 //@   ensures[key-of-no-labels] ret0 == hash64("")
+
+//@ scope logqlmetric.go
+//@ func getPrometheusTimestamp
+//@   modifies nothing
+//@ iface AggregatedLabels.AsLokiAPI
+//@   modifies nothing
